@@ -273,7 +273,9 @@ func (p *RevProfile) genCRLPlan(t *Tape, sc *RevScenario, truth int, deviate boo
 		c.UnknownCrit = true
 	case 4:
 		if isDelta {
-			switch t.Choose(6) {
+			switch t.Choose(8) {
+			case 6, 7:
+				c.NumberAbs = true
 			case 0:
 				c.NumOff = 0
 			case 1:
@@ -288,6 +290,9 @@ func (p *RevProfile) genCRLPlan(t *Tape, sc *RevScenario, truth int, deviate boo
 				c.IndOff = 0
 				c.NumOff = 1
 			}
+		} else if t.Bool(40) {
+			// base without CRL number (matters when a delta accompanies it)
+			c.NumberAbs = true
 		} else {
 			c.NextKind = NuAbsent
 		}
